@@ -14,6 +14,8 @@ from sim import refrel
 from sim.snap import tsnap, tstr, shape
 
 BOTTOM = ('BOTTOM',)
+NUMERIC = ('IntegerType', 'ShortType', 'LongType', 'ByteType', 'FloatType', 'DoubleType',
+           'NumberType', 'BigDecimalType', 'BigIntegerType', 'CharType')
 
 
 class Scope:
@@ -76,6 +78,10 @@ class Checker:
         r = self._memo.get(k)
         if r is None:
             r = self._memo[k] = (tsnap(t), t)
+            # built-in constructors no factory method hands out (Kotlin's IntArray & co.)
+            if r[0] is not None and r[0][0] in ('P', 'TC') and r[0][1] not in self.tb.classes \
+                    and '#' in r[0][1]:
+                self.tb.add_type(t)
         return r[0]
 
     def report(self, prop, rule, where, detail, extra=''):
@@ -198,6 +204,7 @@ class Checker:
             return True
         # numeric leniency (Java/Groovy implicit conversions of constants; liberal)
         if actual[0] == 'B' and expected[0] == 'B' and self.lang in ('java', 'groovy') and \
+                actual[1] in NUMERIC and expected[1] in NUMERIC and \
                 isinstance(expr, (ast.IntegerConstant, ast.RealConstant)):
             self.stats['numeric_constant_leniency'] += 1
             return True
